@@ -59,6 +59,17 @@ Definition carriers_of (p : list mfunc) (a : str) : list (str * nat) :=
 Definition axis_known (p : list mfunc) (a : str) : bool :=
   negb (length (carriers_of p a) =? 0).
 
+(* every array is spelled with the same axis name at the same position in all MapSpecs (what
+   validate_consistent_axes enforces when the Pipeline is built); decidable form of Proofs/FixedSpecFacts.consistent_axes *)
+Fixpoint axes_agree (l1 l2 : list (option str)) : bool :=
+  match l1, l2 with
+  | Some x :: t1, Some y :: t2 => str_eqb x y && axes_agree t1 t2
+  | _ :: t1, _ :: t2 => axes_agree t1 t2
+  | _, _ => true
+  end.
+Definition consistent_axesb (arrs : list aspec) : bool :=
+  forallb (fun sp1 => forallb (fun sp2 => negb (str_eqb (aname sp1) (aname sp2)) || axes_agree (axes sp1) (axes sp2)) arrs) arrs.
+
 (* axis a is reduced: some function consumes an array carrying a either whole (not through its MapSpec)
    or with ':' at a's position *)
 Definition axis_reduced (p : list mfunc) (a : str) : bool :=
@@ -88,6 +99,13 @@ Definition dim_of (shapes : shapes_t) (nk : str * nat) : option nat :=
   end.
 
 Definition sel_in_range (f : fsel) (size : nat) : bool := is_ok (fsel_indices f size).
+
+(* every fixed index is in range on every array that carries its axis (known shapes).  _validate_fixed_indices checks
+   this only on supplied inputs; on an axis carried only by internal shapes the run itself raises IndexError. *)
+Definition fixed_in_range (p : list mfunc) (shapes : shapes_t) (d : request) : bool :=
+  forallb (fun af => forallb (fun nk => match dim_of shapes nk with
+                                        | Some n => sel_in_range (snd af) n
+                                        | None => true end) (carriers_of p (fst af))) d.
 
 Inductive status := Valid | Rejected | Unspecified.
 
